@@ -2,5 +2,5 @@
 
 package tiered
 
-// verifPoint marks a scheduling point of the flush worker; it is a no-op unless built with the tag `verif`.
+// verifPoint marks a scheduling point of the flush worker or of a client operation; it is a no-op unless built with the tag `verif`.
 func verifPoint(point, key string) {}
